@@ -138,7 +138,8 @@ class SdSimulation():
         """
 
         ## To avoid tail-recursion, start at 0 and use memoization to store the results and build results from the bottom
-        for i in timerange(start, until+self.mod.dt, self.mod.dt):
+        # the stop time belongs to the grid: inclusive bound (until+dt as exclusive bound can round up and add a row)
+        for i in timerange(start, until, self.mod.dt, exclusive=False):
             try:
                 result = self.mod.equation(equation, i)
             except KeyError:
